@@ -125,6 +125,21 @@ impl Drop for FastGuard {
 }
 
 thread_local! {
+    /// the instantiation the fast path is working on (for the abort handler)
+    static CURRENT_UNIT: std::cell::Cell<Option<(Kind, DimMode, Field)>> = const { std::cell::Cell::new(None) };
+}
+
+/// The builder chain the calling thread's fast path is replaying right now, as a run.
+pub fn current_chain_spec() -> Option<RunSpec> {
+    let (kind, dim, field) = CURRENT_UNIT.with(|u| u.get())?;
+    let chain = CURRENT_CHAIN.with(|c| c.try_borrow().ok().map(|c| c.clone()))?;
+    if chain.is_empty() {
+        return None;
+    }
+    Some(chain_spec(kind, dim, field, chain, true))
+}
+
+thread_local! {
     /// the chain the fast path is replaying right now, so that a panic can be attributed
     static CURRENT_CHAIN: std::cell::RefCell<Vec<BOp>> = const { std::cell::RefCell::new(Vec::new()) };
 }
@@ -582,6 +597,7 @@ pub fn run_bexh_unit(
 ) {
     let _fast = FastGuard::new();
     let (kind, dim, field, ctor, first) = *unit;
+    CURRENT_UNIT.with(|u| u.set(Some((kind, dim, field))));
     let v = EnumChains { kind, dim, ctor, alphabet, first, maxlen, complete_upto };
     let r = catch_unwind(AssertUnwindSafe(|| dispatch(kind, dim, field, DataMode::Unit, v)));
     match r {
